@@ -133,3 +133,11 @@ Definition dset_apply_mask {A} (zero : A) (s : dset A) (mask : list (list bool))
 (* AbstractDataset.trimmed_after_convolution_from keeps `unmasked` (copy.copy) *)
 Definition dset_trimmed {A} (zero : A) (s : dset A) (k : Z * Z) : res (dset A) :=
   let '(d, n, unm) := s in bind (dataset_trimmed zero (d, n) k) (fun '(d', n') => Ok (d', n', unm)).
+
+(* ------------------------------------------------------------------ MODEL: Grid2D.padded_grid_from *)
+(* Mask2D.all_false(shape_native=(h, w)) *)
+Definition all_false_mask (h w : Z) : list (list bool) := tab2 (Z.to_nat h) (Z.to_nat w) (fun _ _ => false).
+(* Grid2D.padded_grid_from(kernel_shape_native) of a grid on an H x W frame: the grid of the all-False mask of shape
+   (H + k0 - 1, W + k1 - 1) with the frame's pixel scales and origin (Grid2D.from_mask) *)
+Definition padded_grid_from {O : NumOps} (H W : Z) (k : Z * Z) (g : @geom O) : list (T O * T O) :=
+  grid_slim_via_mask (all_false_mask (H + fst k - 1) (W + snd k - 1)) g.
